@@ -575,16 +575,25 @@ def _single_const_store(loop, name, cv):
     return True
 
 
+STATS = {"enumerations": 0, "paths": 0}
+
+
+def _count(ps):
+    STATS["enumerations"] += 1
+    STATS["paths"] += len(ps)
+    return ps
+
+
 def paths_of(fn, prune=True, unroll=1):
     """All paths through the body of function *fn*."""
-    return Enumerator(prune, unroll).seq([Path()], fn.body)
+    return _count(Enumerator(prune, unroll).seq([Path()], fn.body))
 
 
 def paths_through(stmts, prune=True, env=None):
-    return Enumerator(prune).seq([Path(env=env)], stmts)
+    return _count(Enumerator(prune).seq([Path(env=env)], stmts))
 
 
 def loop_body_paths(loop, prune=True):
     """Paths through one iteration of *loop*'s body (ends: fall/continue/break/
     return/raise)."""
-    return Enumerator(prune).seq([Path()], loop.body)
+    return _count(Enumerator(prune).seq([Path()], loop.body))
